@@ -52,6 +52,10 @@ MUTS = {
  # ---- load-return / register-read paths (dependent-load motifs, 2026-09-26)
  'seed3-c07-last-sgpr-operand-cache-not-cleared-by-scalar-load-return': 'PATCH:/tmp/seed3-c07/SEED/patch.diff',
  'seed4-c02-emulation-lds-buffer-reused-across-work-groups-never-cleared': 'PATCH:/tmp/seed4-c02/SEED/patch.diff',
+ # ---- kernel-boundary acquire (2026-09-26)
+ 'seed6-c02-launch-acquire-skips-l1-scalar-caches': 'PATCH:/tmp/seed6-c02/SEED/patch.diff',
+ 'launch-acquire-skips-l1-vector-caches': ('amd/timing/cp/cpMiddleware.go',
+   '\tfor _, ports := range [][]sim.Port{m.L1SCaches, m.L1VCaches} {', '\tfor _, ports := range [][]sim.Port{m.L1SCaches} {'),
  # ---- host-API shapes (2026-09-26)
  'seed5-c02-copy-through-never-launching-context-skips-flush': 'PATCH:/tmp/seed5-c02/SEED/patch.diff',
  'seed5-c01-emulation-translation-cache-keyed-by-virtual-page-only': 'PATCH:/tmp/seed5-c01/SEED/patch.diff',
